@@ -139,7 +139,7 @@ def run_case(case, model=True):
 
 
 def first_model_diff(trace, answers):
-    if answers is None:
+    if answers is None or (trace and trace[0].get("crash")):
         return None
     for i, (t, a) in enumerate(zip(trace, answers)):
         want = "ok" if t["impl"] == "ok" else "model=" + t["impl"]
@@ -172,11 +172,15 @@ def shrink(case, pred):
 
 def signature_of(case, trace, idx, msg) -> str:
     if case["kind"] == "iter":
+        if "raised" in msg:
+            return "decorator-raises"
         if "ttl is" in msg or "empty replay" in msg:
             return "iter-stale-or-empty-replay"
         if "rejected" in msg:
             return "iter-replays-rejected-run"
         return "iter-replay-is-not-one-run"
+    if "raised" in msg:
+        return "decorator-raises"
     if "executed although" in msg:
         return "simple-executes-despite-stored"
     if "rejected" in msg:
@@ -190,7 +194,7 @@ def report(chk: Check, case, origin, model=True):
         small = shrink(case, lambda c: judge(c, False)[0] is not None)
         verdict, dm, trace, log, answers = judge(small, model)
         idx, msg = verdict
-        replay = {"case": small, "trace": [{"op": t["line"], "impl": t["impl"], "model": (answers[i] if answers else None),
+        replay = {"case": small, "trace": [{"op": t["line"], "impl": t["impl"], "model": (answers[i] if answers and not t.get("crash") else None),
                                             "now_ticks": t["now"]} for i, t in enumerate(trace)],
                   "executions": log, "failing_step": idx, "origin": origin, "replay_cmd": "./check C02 --replay <this file>"}
         what = "basic cache decorator" if small["kind"] == "simple" else "iterator decorator"
@@ -225,6 +229,8 @@ def describe_ttl(ttl: str) -> str:
 # interesting states
 def interesting(case, trace, log) -> set[str]:
     out = set()
+    if trace and trace[0].get("crash"):
+        return out
     ttl, cond = case["ttl"], case["cond"]
     if case["kind"] == "simple":
         by_n = {x["n"]: x for x in log}
@@ -434,8 +440,8 @@ def run(chk: Check) -> int:
         found += 1
 
     # 2. call histories
-    n_simple = chk.budget(900, 40000)
-    n_iter = chk.budget(700, 30000)
+    n_simple = chk.budget(9000, 60000)
+    n_iter = chk.budget(7000, 45000)
     cases = [("corpus:" + name, c) for name, c in corpus_cases()]
     ncorpus = len(cases)
     for i in range(max(n_simple, n_iter)):
